@@ -24,6 +24,10 @@ func (t *Type) Enum(cfg *enum.Config) *Enum {
 }
 
 func loadEnum(t *types.Named, cfg *enum.Config) *Enum {
+	if t.Obj().Pkg() == nil {
+		// predeclared named types (error) belong to no package and are no enums
+		return disabled
+	}
 	path := t.Obj().Pkg().Path()
 	name := t.Obj().Name()
 
